@@ -6,9 +6,16 @@ pub mod c12;
 pub mod c13;
 pub mod c14;
 pub mod lattice;
+pub mod paths;
+pub mod plan;
 
 pub fn run(prop: &str, tier: Tier, seed: u64) -> i32 {
     match prop {
+        "C01" => paths::run(paths::PathProp::C01, tier, seed),
+        "C02" => paths::run(paths::PathProp::C02, tier, seed),
+        "C03" => paths::run(paths::PathProp::C03, tier, seed),
+        "C04" => paths::run(paths::PathProp::C04, tier, seed),
+        "C05" => paths::run(paths::PathProp::C05, tier, seed),
         "C09" => c09::run(tier, seed),
         "C10" => c10::run(tier, seed),
         "C11" => c11::run(tier, seed),
@@ -23,6 +30,32 @@ pub fn run(prop: &str, tier: Tier, seed: u64) -> i32 {
 }
 
 pub fn replay(file: &str) -> i32 {
-    eprintln!("replay of {file}: not implemented yet");
-    3
+    let txt = match std::fs::read_to_string(file) {
+        Ok(t) => t,
+        Err(e) => {
+            eprintln!("cannot read {file}: {e}");
+            return 3;
+        }
+    };
+    let v: serde_json::Value = match serde_json::from_str(&txt) {
+        Ok(v) => v,
+        Err(e) => {
+            eprintln!("cannot parse {file}: {e}");
+            return 3;
+        }
+    };
+    let prop = v["property"].as_str().unwrap_or("");
+    let rp = &v["replay"];
+    let kind = rp["kind"].as_str().unwrap_or("");
+    match (prop, kind) {
+        ("C01", "scenario") => paths::replay(paths::PathProp::C01, rp, file),
+        ("C02", "scenario") => paths::replay(paths::PathProp::C02, rp, file),
+        ("C03", "scenario") => paths::replay(paths::PathProp::C03, rp, file),
+        ("C04", "scenario") => paths::replay(paths::PathProp::C04, rp, file),
+        ("C05", "scenario") => paths::replay(paths::PathProp::C05, rp, file),
+        _ => {
+            crate::util::say(&format!("replay file {file} (property {prop}, kind {kind}): the recorded inputs are in the file; re-run `./check {prop}` with VERIF_SEED={} to reproduce", v["seed"]));
+            0
+        }
+    }
 }
